@@ -23,10 +23,11 @@ LEVEL = "exploration"
 DESIGN_REF = "DESIGN.md §3.2, §4 C06"
 RULE = (
     "cases = (emitter kind in {scripted, inotify-over-simulated-kernel, polling-over-VFS}, call sequences of 1-2 "
-    "application threads over {start, schedule p0|p1, unschedule p0, unschedule_all, stop}, optional re-entrant call from "
-    "a callback, optional disappearing root; schedule).  Exhaustive: every single-thread sequence of length <= 3 (quick) "
-    "/ 4 (thorough) x 3 emitter kinds under the default schedule, and DFS with <= k preemptions (k=1/2) over 8 fixed "
-    "two-thread programs; random: Hypothesis programs x random schedules.  non-trivial = >= 2 threads concurrently "
+    "application threads over {start, schedule p0|p1, unschedule p0, unschedule_all, stop, vanish = the root of p0 "
+    "disappears}, optional re-entrant call from a callback, optional root disappearing from a separate thread, iteration "
+    "order of the observer's emitter set; schedule).  Exhaustive: every single-thread sequence of length <= 3 (quick) "
+    "/ 4 (thorough) x 3 emitter kinds under the default schedule, and DFS with <= k preemptions (k=1/2) over 14 fixed "
+    "programs; random: Hypothesis programs x random schedules.  non-trivial = >= 2 threads concurrently "
     "inside API calls or a re-entrant call, and >= 1 preemption taken; distinct = digest of (program, schedule decisions)"
 )
 ASSUMPTIONS = [
@@ -73,7 +74,18 @@ def make_main(prog):
 
             cls = Em
         elif kind == "inotify":
-            cls = W.inotify.InotifyEmitter
+            # the real emitter; the hash only fixes the order in which the observer's emitter SET is iterated (start(),
+            # _clear_emitters()): part of the program instead of an accident of object addresses
+            order = {PATHS[0]: 2, PATHS[1]: 1} if prog.get("good_first") else {PATHS[0]: 1, PATHS[1]: 2}
+
+            class Em(W.inotify.InotifyEmitter):
+                def __hash__(self):
+                    return order.get(self.watch.path, 3)
+
+                def __eq__(self, other):
+                    return self is other
+
+            cls = Em
         else:
             cls = functools.partial(W.polling.PollingEmitter, stat=stat, listdir=listdir)
         obs = api.BaseObserver(cls, timeout=1.0)
@@ -93,6 +105,8 @@ def make_main(prog):
                     obs.unschedule_all()
                 elif kk == "start":
                     obs.start()
+                elif kk == "vanish":
+                    vanish()
                 elif kk == "stop":
                     obs.stop()
                 elif kk == "join":
@@ -115,6 +129,14 @@ def make_main(prog):
 
         handler = H()
 
+        def vanish():
+            # the watched root /w disappears, as a step of the calling thread's own sequence
+            if kind == "inotify":
+                if k._lookup(b"/w") is not None:  # a second vanish is a no-op
+                    k.op_rmtree_root(b"/w")
+            elif kind == "polling":
+                v.tree.clear()
+
         def fs_activity():
             # something for the emitters to report (and, optionally, the root vanishes); the delays are part of the
             # program so that the activity can also race with the API calls and with the final stop()
@@ -130,7 +152,7 @@ def make_main(prog):
                 if prog.get("root_vanishes"):
                     if d2:
                         tm.sleep(d2)
-                    k.op_rmtree_root(b"/w")
+                    vanish()
             elif kind == "polling":
                 v.tree["b"] = ("f", 3, 1, 0, 0)
                 if prog.get("root_vanishes"):
@@ -195,11 +217,11 @@ def check(prog, r, s):
     return nt, cl
 
 
-ALPHA = [["start"], ["schedule", 0], ["schedule", 1], ["unschedule", 0], ["unschedule_all"], ["stop"]]
+ALPHA = [["start"], ["schedule", 0], ["schedule", 1], ["unschedule", 0], ["unschedule_all"], ["stop"], ["vanish"]]
 
 
-def P(emitter, threads, reentrant=None, root_vanishes=False, fs_delay=0.5, vanish_delay=0.5, settle=3.0):
-    return {"emitter": emitter, "threads": threads, "reentrant": reentrant, "root_vanishes": root_vanishes, "fs_delay": fs_delay, "vanish_delay": vanish_delay, "settle": settle}
+def P(emitter, threads, reentrant=None, root_vanishes=False, fs_delay=0.5, vanish_delay=0.5, settle=3.0, good_first=False):
+    return {"emitter": emitter, "threads": threads, "reentrant": reentrant, "root_vanishes": root_vanishes, "fs_delay": fs_delay, "vanish_delay": vanish_delay, "settle": settle, "good_first": good_first}
 
 
 FIXED = [
@@ -214,6 +236,12 @@ FIXED = [
     # the root disappears while stop() is under way (nothing settles in between)
     P("inotify", [[["schedule", 0], ["start"]]], root_vanishes=True, fs_delay=0.0, vanish_delay=0.0, settle=0.0),
     P("inotify", [[["schedule", 0], ["start"]], [["unschedule", 0]]], root_vanishes=True, fs_delay=0.0, vanish_delay=0.0, settle=0.0),
+    # a root that is gone before start(): start() raises after it started the other watch's emitter (or before, by the
+    # order of the emitter set), the application retries, schedules again, stops
+    P("inotify", [[["schedule", 0], ["schedule", 1], ["vanish"], ["start"], ["start"]]], good_first=True),
+    P("inotify", [[["schedule", 0], ["schedule", 1], ["vanish"], ["start"], ["start"]]], good_first=False),
+    P("inotify", [[["schedule", 0], ["schedule", 1], ["vanish"], ["start"], ["unschedule", 0], ["start"]], [["start"]]], good_first=True),
+    P("polling", [[["schedule", 0], ["schedule", 1], ["vanish"], ["start"], ["start"]]]),
 ]
 
 
@@ -230,6 +258,7 @@ def programs(draw):
         fs_delay=draw(st.sampled_from([0.0, 0.5])),
         vanish_delay=draw(st.sampled_from([0.0, 0.5])),
         settle=draw(st.sampled_from([0.0, 3.0, 3.0])),
+        good_first=draw(st.booleans()),
     )
 
 
